@@ -194,9 +194,11 @@ class Proxy(object):
         if f2 and tripped[0]:
           # SQLite reports an interrupted ATTACH as "unable to open database"
           w.fired.append(('interrupt', k))
-        elif 'full' in msg:
+        elif 'full' in msg and any(x['kind'] == 'full' for x in w.faults):
           w.fired.append(('full', k))
-        elif 'locked' in msg or 'busy' in msg:
+        elif ('locked' in msg or 'busy' in msg) and f:
+          # only the injected locker counts as the fault; a lock nobody injected is the
+          # system's own doing and must surface as an engine error
           w.fired.append(('busy', k))
         raise
     finally:
